@@ -3,7 +3,61 @@ package main
 import (
 	"fmt"
 	"go/ast"
+	"go/parser"
+	"os"
+	"path/filepath"
+	"regexp"
+	"strings"
 )
+
+// autoincGmsDir locates the go-mysql-server source that /repo's go.mod pins (module cache), because
+// the statement-level AUTO_INCREMENT lock of the non-interleaved lock modes is taken there.
+func autoincGmsDir(repo string) (dir, version string, err error) {
+	gm, err := os.ReadFile(filepath.Join(repo, "go", "go.mod"))
+	if err != nil {
+		return "", "", err
+	}
+	if regexp.MustCompile(`(?m)^\s*(replace\s+)?github.com/dolthub/go-mysql-server\s*=>`).Match(gm) {
+		return "", "", fmt.Errorf("go.mod replaces go-mysql-server; cannot locate its source")
+	}
+	m := regexp.MustCompile(`(?m)^\s*(?:require\s+)?github.com/dolthub/go-mysql-server\s+(v\S+)`).FindSubmatch(gm)
+	if m == nil {
+		return "", "", fmt.Errorf("go-mysql-server not required by go.mod")
+	}
+	version = string(m[1])
+	var roots []string
+	if v := os.Getenv("GOMODCACHE"); v != "" {
+		roots = append(roots, v)
+	}
+	if v := os.Getenv("GOPATH"); v != "" {
+		roots = append(roots, filepath.Join(v, "pkg", "mod"))
+	}
+	if h, e := os.UserHomeDir(); e == nil {
+		roots = append(roots, filepath.Join(h, "go", "pkg", "mod"))
+	}
+	roots = append(roots, "/root/go/pkg/mod")
+	for _, r := range roots {
+		d := filepath.Join(r, "github.com", "dolthub", "go-mysql-server@"+version)
+		if st, e := os.Stat(d); e == nil && st.IsDir() {
+			return d, version, nil
+		}
+	}
+	return "", version, fmt.Errorf("go-mysql-server %s not found in the module cache", version)
+}
+
+// autoincParseAbs parses a Go file outside /repo and returns the file and its source.
+func (c *ctx) autoincParseAbs(path string) (*ast.File, []byte, error) {
+	src, err := os.ReadFile(path)
+	if err != nil {
+		return nil, nil, err
+	}
+	f, err := parser.ParseFile(c.fset, path, src, parser.ParseComments)
+	if err != nil {
+		return nil, nil, err
+	}
+	c.used = append(c.used, path)
+	return f, src, nil
+}
 
 // AutoInc (C28): in SequenceTracker.Next / Set the per-table mutex is taken before the tracker
 // state is loaded and released (deferred) after it is stored; uint64 arithmetic of
@@ -101,6 +155,139 @@ func init() {
 			}
 			c.defNat(n, v)
 		}
+
+		// ---- lock modes 0/1: the statement-level lock
+		fd = findMethodGeneric(f, "SequenceTracker", "AcquireLock")
+		if fd == nil {
+			return fmt.Errorf("SequenceTracker.AcquireLock not found")
+		}
+		c.defStringList("acquireLockCalls", callNames(fd))
+		guards := []string{}
+		ast.Inspect(fd, func(x ast.Node) bool {
+			if is, ok := x.(*ast.IfStmt); ok {
+				for _, n := range callNames(is.Body) {
+					if n == "panic" {
+						guards = append(guards, c.src(rel, is.Cond))
+					}
+				}
+			}
+			return true
+		})
+		c.defStringList("acquireLockPanicsWhen", guards)
+		const wrel = "go/libraries/doltcore/sqle/writer/prolly_table_writer.go"
+		wf, err := c.file(wrel)
+		if err != nil {
+			return err
+		}
+		wfd := findFunc(wf, "prollyTableWriter", "AcquireAutoIncrementLock")
+		if wfd == nil {
+			return fmt.Errorf("prollyTableWriter.AcquireAutoIncrementLock not found")
+		}
+		c.defStringList("writerAcquireCalls", callNames(wfd))
+		wfd = findFunc(wf, "prollyTableWriter", "GetNextAutoIncrementValue")
+		if wfd == nil {
+			return fmt.Errorf("prollyTableWriter.GetNextAutoIncrementValue not found")
+		}
+		c.defStringList("writerNextCalls", callNames(wfd))
+
+		gdir, gver, err := autoincGmsDir(c.repo)
+		if err != nil {
+			return err
+		}
+		c.defString("gmsVersion", gver)
+		dml, dsrc, err := c.autoincParseAbs(filepath.Join(gdir, "sql", "rowexec", "dml.go"))
+		if err != nil {
+			return err
+		}
+		bi := findFunc(dml, "BaseBuilder", "buildInsertInto")
+		if bi == nil {
+			return fmt.Errorf("go-mysql-server: BaseBuilder.buildInsertInto not found")
+		}
+		text := func(src []byte, n ast.Node) string {
+			return string(src[c.fset.Position(n.Pos()).Offset:c.fset.Position(n.End()).Offset])
+		}
+		// the chain of if-conditions (outermost first) around the AcquireAutoIncrementLock call
+		var chain []string
+		var walk func(n ast.Node, conds []string) bool
+		walk = func(n ast.Node, conds []string) bool {
+			found := false
+			ast.Inspect(n, func(x ast.Node) bool {
+				if found {
+					return false
+				}
+				switch v := x.(type) {
+				case *ast.IfStmt:
+					if walk(v.Body, append(append([]string{}, conds...), text(dsrc, v.Cond))) {
+						found = true
+					}
+					if v.Else != nil && !found && walk(v.Else, conds) {
+						found = true
+					}
+					return false
+				case *ast.CallExpr:
+					if strings.HasSuffix(exprName(v.Fun), ".AcquireAutoIncrementLock") {
+						chain = conds
+						found = true
+						return false
+					}
+				}
+				return true
+			})
+			return found
+		}
+		if !walk(bi.Body, nil) {
+			return fmt.Errorf("go-mysql-server: AcquireAutoIncrementLock call not found in buildInsertInto")
+		}
+		c.defStringList("gmsStatementLockConditions", chain)
+		hasVar := false
+		for _, l := range stringLits(bi) {
+			if l == "innodb_autoinc_lock_mode" {
+				hasVar = true
+			}
+		}
+		c.defBool("gmsReadsLockModeVariable", hasVar)
+		ins, _, err := c.autoincParseAbs(filepath.Join(gdir, "sql", "rowexec", "insert.go"))
+		if err != nil {
+			return err
+		}
+		var unlockIn []string
+		for _, d := range ins.Decls {
+			if f2, ok := d.(*ast.FuncDecl); ok && f2.Body != nil {
+				for _, n := range callNames(f2.Body) {
+					if n == "i.unlocker" {
+						unlockIn = append(unlockIn, f2.Name.Name)
+					}
+				}
+			}
+		}
+		c.defStringList("gmsUnlockerCalledIn", unlockIn)
+		sv, ssrc, err := c.autoincParseAbs(filepath.Join(gdir, "sql", "variables", "system_variables.go"))
+		if err != nil {
+			return err
+		}
+		def := ""
+		ast.Inspect(sv, func(x ast.Node) bool {
+			kv, ok := x.(*ast.KeyValueExpr)
+			if !ok {
+				return true
+			}
+			if bl, ok := kv.Key.(*ast.BasicLit); ok && bl.Value == "\"innodb_autoinc_lock_mode\"" {
+				ast.Inspect(kv.Value, func(y ast.Node) bool {
+					if kv2, ok := y.(*ast.KeyValueExpr); ok {
+						if id, ok := kv2.Key.(*ast.Ident); ok && id.Name == "Default" {
+							def = text(ssrc, kv2.Value)
+						}
+					}
+					return true
+				})
+				return false
+			}
+			return true
+		})
+		if def == "" {
+			return fmt.Errorf("go-mysql-server: default of innodb_autoinc_lock_mode not found")
+		}
+		c.defString("gmsLockModeDefault", def)
 
 		const trel = "go/libraries/doltcore/doltdb/table.go"
 		tf, err := c.file(trel)
